@@ -86,7 +86,7 @@ func ReadWithDirectory(r io.ReaderAt, size int64, cd []byte) (*Directory, error)
 	dirLoc := size - int64(len(cd))
 	files := make([]*File, 0)
 	for {
-		if binary.LittleEndian.Uint32(cd) != directoryHeaderSignature {
+		if len(cd) < 4 || binary.LittleEndian.Uint32(cd) != directoryHeaderSignature {
 			break
 		}
 		var hdr zipCentralDir
@@ -109,6 +109,9 @@ func ReadWithDirectory(r io.ReaderAt, size int64, cd []byte) (*Directory, error)
 			rs: size,
 		}
 		f.raw = make([]byte, directoryHeaderLen+int(hdr.FilenameLen)+int(hdr.ExtraLen)+int(hdr.CommentLen))
+		if len(f.raw) > len(cd) {
+			return nil, errors.New("truncated central directory")
+		}
 		copy(f.raw, cd)
 		cd = cd[directoryHeaderLen:]
 		f.Name, cd = string(cd[:int(hdr.FilenameLen)]), cd[int(hdr.FilenameLen):]
@@ -151,6 +154,9 @@ func ReadWithDirectory(r io.ReaderAt, size int64, cd []byte) (*Directory, error)
 		Size:   size,
 		DirLoc: dirLoc,
 		r:      r,
+	}
+	if len(cd) < 4 {
+		return nil, errors.New("expected end record")
 	}
 	rd := bytes.NewReader(cd)
 	switch binary.LittleEndian.Uint32(cd) {
